@@ -368,17 +368,57 @@ class Interp:
         self.exec_block(st.orelse)
 
     def st_While(self, st):
-        self.unsupported(st, "while loop")
+        # bounded unrolling; a loop that is still running after the bound is outside the analysed subset
+        for _ in range(6):
+            if not self.truth(self.eval(st.test), st.test):
+                self.exec_block(st.orelse)
+                return
+            try:
+                self.exec_block(st.body)
+            except BreakSig:
+                return
+            except ContinueSig:
+                continue
+        self.unsupported(st, "while loop not finished after 6 iterations")
 
     def st_FunctionDef(self, st):
         fi = FuncInfo(st.name, self.frame.module, self.frame.cls, st, "function")
         self.frame.env[st.name] = PyFuncV(fi)
 
     def st_Delete(self, st):
-        self.unsupported(st, "del")
+        for t in st.targets:
+            if isinstance(t, ast.Name) and t.id in self.frame.env:
+                del self.frame.env[t.id]
+            elif isinstance(t, ast.Subscript):
+                obj = self.eval(t.value)
+                key = self.eval(t.slice)
+                self.st.effects.append(("delitem", obj, key, self.models.where(t)))
+            elif isinstance(t, ast.Attribute):
+                obj = self.eval(t.value)
+                self.st.effects.append(("delattr", obj, t.attr, self.models.where(t)))
+            else:
+                self.unsupported(st, "del")
 
     def st_Global(self, st):
-        self.unsupported(st, "global")
+        pass
+
+    def st_Nonlocal(self, st):
+        pass
+
+    def st_With(self, st):
+        for item in st.items:
+            cm = self.eval(item.context_expr)
+            ent = self.models.get_attr(cm, "__enter__", st)
+            v = self.models.call(ent, [], {}, st)
+            if item.optional_vars is not None:
+                self.assign(item.optional_vars, v)
+        try:
+            self.exec_block(st.body)
+        finally:
+            for item in st.items:
+                cm = self.eval(item.context_expr)
+                ex = self.models.get_attr(cm, "__exit__", st)
+                self.models.call(ex, [NONE, NONE, NONE], {}, st)
 
     # ------------------------------------------------------------ truthiness
     def truth(self, v: V, node=None) -> bool:
@@ -521,6 +561,17 @@ class Interp:
 
     def ex_ListComp(self, node):
         return self._comp(node, node.elt, as_list=True)
+
+    def ex_SetComp(self, node):
+        return self._comp(node, node.elt, as_list=True)
+
+    def ex_Set(self, node):
+        return ListV([self.eval(e) for e in node.elts])
+
+    def ex_NamedExpr(self, node):
+        v = self.eval(node.value)
+        self.assign(node.target, v)
+        return v
 
     def ex_GeneratorExp(self, node):
         v = self._comp(node, node.elt, as_list=True)
